@@ -165,6 +165,9 @@ struct Reference {
     last_sample: usize,
     /// cycle index at which the machine sat in its intermediate regular stop (family 4)
     continued_at: Option<usize>,
+    /// the enable mask as the program wrote it: last byte stored to 0xF9 before cycle t (from the
+    /// edge log's bus writes), 0 after power-on
+    micr_written: Vec<u8>,
 }
 
 fn reference_run(p: &Prog) -> Option<Reference> {
@@ -174,6 +177,7 @@ fn reference_run(p: &Prog) -> Option<Reference> {
     let mut last_sample = 0;
     let mut prev_done = m.is_instruction_done();
     verif::set_fuel(Some(10_000));
+    verif::arm_edge_log();
     let mut continued_at = None;
     for t in 0..6000 {
         let stopped_midway = m.state() == State::Stopped && p.family == 4 && continued_at.is_none();
@@ -200,10 +204,21 @@ fn reference_run(p: &Prog) -> Option<Reference> {
         prev_done = d;
     }
     verif::set_fuel(None);
+    let log = verif::take_edge_log();
     if m.state() != State::Stopped || snaps.len() < 80 {
         return None;
     }
-    Some(Reference { snaps, boundaries, fin: m, last_sample, continued_at })
+    let mut micr_written = Vec::with_capacity(snaps.len());
+    let mut cur = 0u8;
+    for t in 0..snaps.len() {
+        micr_written.push(cur);
+        if let Some(ev) = log.get(t) {
+            if let Some((0xF9, v)) = ev.bus_write {
+                cur = v & 0x3F;
+            }
+        }
+    }
+    Some(Reference { snaps, boundaries, fin: m, last_sample, continued_at, micr_written })
 }
 
 type V = (String, String);
@@ -236,7 +251,10 @@ fn interrupted_run(r: &Reference, t0: usize, triggers: &[usize], check_entry: bo
                     reti_trigger = true;
                 }
             }
-            let armed = (m.bus().verif_snapshot().micr & 1 != 0) && real::arch(&m).fr & IE != 0 && s.pending_register_write != Some(4);
+            // the first trigger is judged against the mask the program wrote; later ones (the routine
+            // may have run in between) against the hooked register
+            let enabled = if t == t0 { r.micr_written[t0] & 1 != 0 } else { m.bus().verif_snapshot().micr & 1 != 0 };
+            let armed = enabled && real::arch(&m).fr & IE != 0 && s.pending_register_write != Some(4);
             m.trigger_key_interrupt();
             if armed && !m.verif_snapshot().pending_edge_interrupt {
                 verif::set_fuel(None);
@@ -381,7 +399,7 @@ fn check_program(p: &Prog, rng: &mut Rng, quick: bool, rep: &mut Report, only: O
         let t0 = triggers[0];
         let snap0 = r.snaps[t0].verif_snapshot();
         let fr0 = real::arch(&r.snaps[t0]).fr;
-        let micr0 = (r.snaps[t0].bus().verif_snapshot().micr & 1 != 0);
+        let micr0 = r.micr_written[t0] & 1 != 0;
         let res = catch(|| {
             let mut local = Report::new();
             let out = interrupted_run(&r, t0, triggers, single, &mut local);
@@ -466,7 +484,7 @@ fn check_program(p: &Prog, rng: &mut Rng, quick: bool, rep: &mut Report, only: O
     }
     // pairs in a sliding window; some first triggers are placed where a request is latched but
     // dropped (enable bit set, IE clear)
-    let dropped: Vec<usize> = (0..t_len).filter(|t| (r.snaps[*t].bus().verif_snapshot().micr & 1 != 0) && real::arch(&r.snaps[*t]).fr & IE == 0).collect();
+    let dropped: Vec<usize> = (0..t_len).filter(|t| (r.micr_written[*t] & 1 != 0) && real::arch(&r.snaps[*t]).fr & IE == 0).collect();
     let pair_starts = if quick { 5 } else { 40 };
     for k in 0..pair_starts {
         let t1 = if k % 2 == 0 && !dropped.is_empty() { dropped[rng.usize(dropped.len())] } else { rng.usize(t_len) };
